@@ -404,7 +404,7 @@ class ValidExtsOracles(ActiveItemOracles):
         name = path.split("::")[-1]
         if path.startswith("graph::Node::<"):
             if name == "exts":
-                return Opaque(EXTS, {"node-exts"})
+                return self.node_exts()
             if name == "sequence":
                 return Opaque("DnaStringSlice", {"node-seq"})
         if "PackedDnaStringSet" in path and name == "get" and len(args) == 2 and "node" in tags_of(args[1]):
@@ -457,10 +457,20 @@ class ValidExtsOracles(ActiveItemOracles):
             return mkbool(self.state(*item) in ("ext-link-valid", "ext-link-self"))
         return NotImplemented
 
+    def node_exts(self):
+        """the node's extension byte, concretely: the bit of (side, base) is set unless the item's state is `none` — so the code may test,
+        list, copy or mask it any way it likes"""
+        m = 0
+        for sd in (LEFT, RIGHT):
+            for b in range(4):
+                if self.state(sd, b) != "none":
+                    m |= 1 << (b + (4 if sd == RIGHT else 0))
+        return Adt(EXTS, 0, [Int(8, False, val=m)])
+
     def opaque_index(self, it, v, idx, base):
         # the node's own entry of the extensions table (read directly instead of through the Node wrapper)
         if "exts-vec" in tags_of(v) and "node" in tags_of(idx):
-            return Ref(Cell(Opaque(EXTS, {"node-exts"}), "exts[node]"))
+            return Ref(Cell(self.node_exts(), "exts[node]"))
         return None
 
     def unknown_compare(self, it, op, a, b):
@@ -512,7 +522,9 @@ def get_valid_exts_table(F, rep, rule="C03.4"):
                     ev = out.fields[0] if isinstance(out, Adt) and out.name == EXTS else None
                     kept = [it_ for it_ in items if (a.get("item") if it_ == active else background) in ("ext-link-valid", "ext-link-self")]
                     want = exts_byte(kept)
-                    if not (isinstance(ev, Int) and ev.is_conc() and ev.val == want):
+                    if not (isinstance(ev, Int) and ev.is_conc()):
+                        problems.append(("the result could not be evaluated (%r)" % (out,), row, True))
+                    elif ev.val != want:
                         problems.append(("result %s; an extension is kept exactly when it was present, its probe k-mer resolves to a node and that node is "
                                          "valid: %s" % (bin(ev.val) if isinstance(ev, Int) and ev.is_conc() else ev, bin(want)), row, False))
                     for (end, sd, b) in h.obs.get("extend", []):
@@ -876,7 +888,7 @@ class MaxPathOracles(Oracles):
             if "solid-fn" in tags_of(f):
                 self._solid_n = getattr(self, "_solid_n", 0) + 1
                 return mkbool(self.choose("solid@w%d.s%d.e%d" % (self.walk, self.step, self._edge_i), (True, False)))
-        if "HashSet" in path:
+        if "HashSet" in path or "BitSet" in path or "bit_set::" in path or "BTreeSet" in path:
             if name in ("new", "default", "with_capacity"):
                 return SetModel()
             r = args[0]
@@ -896,13 +908,17 @@ class MaxPathOracles(Oracles):
             n = recv(it, args[0])
             nid = ident_of(n.fields[0])
             d = dir_of(args[1]) if name == "edges" else (LEFT if name == "l_edges" else RIGHT)
-            # a new walk starts when the edges of the best node are requested
+            # a new walk starts when the edges of the best node are requested (the very first request is on the best node)
+            if self.best is None:
+                self.best = nid
             if nid == self.best_ident(it):
                 self.walk += 1
                 self.step = 0
             else:
                 self.step += 1
             self.edge_calls.append((self.walk, self.step, nid, d))
+            self.last_target = self.prev_node if self.step >= 1 else None
+            self.prev_node = nid
             self._edge_i = 0
             if self.walk != self.active_walk or self.step > 1:
                 return VecV([])
@@ -925,17 +941,19 @@ class MaxPathOracles(Oracles):
                 if tgt == "fresh":
                     self.fresh += 1
                     ident = "f%d" % self.fresh
+                    self.fresh_walk = getattr(self, "fresh_walk", {})
+                    self.fresh_walk[ident] = self.walk
                 elif tgt == "best":
                     ident = self.best_ident(it)
                 else:
-                    ident = self.pushed[-1][0] if self.pushed else self.best_ident(it)
+                    ident = self.last_target if getattr(self, "last_target", None) else self.best_ident(it)
                 idv = Int(64, False, bits=[TOP] * 64, tags=frozenset({"n:" + ident})) if not ident.startswith("#") else Int(64, False, val=int(ident[1:]))
                 out.append(Tup([idv, dir_v(ed), mkbool(False)]))
             self._edges_now = out
+            self.offered = getattr(self, "offered", [])
+            self.offered.append((self.walk, self.step, [(ident_of(e.fields[0]), dir_of(e.fields[1])) for e in out]))
             return VecV(out)
         if "VecDeque" in path and name in ("push_front", "push_back"):
-            e = args[1]
-            self.pushed.append((ident_of(e.fields[0]), dir_of(e.fields[1]), name, self.walk))
             return NotImplemented
         if name == "from_iter" and args and isinstance(args[0], DequeV):
             return VecV(args[0].elems)
@@ -977,15 +995,6 @@ def max_path_table(F, rep, rule="C03.7"):
         def run(h):
             it = Interp(F, False, h)
             g = graph_value(F, False)
-            # best node: resolved by the first-loop comparisons; the harness learns it from the first push
-            orig_push = h.on_call
-
-            def hook(it2, fn, args, dest_ty, term, caller):
-                p = fn.get("path", "")
-                if "VecDeque" in p and p.endswith("push_front") and h.best is None:
-                    h.best = ident_of(args[1].fields[0])
-                return orig_push(it2, fn, args, dest_ty, term, caller)
-            h.on_call = hook
             r = it.call_body(body, [Ref(Cell(g, "graph")), Opaque("F", {"score-fn"}), Opaque("F2", {"solid-fn"})])
             return r
         try:
@@ -1011,34 +1020,45 @@ def max_path_table(F, rep, rule="C03.7"):
             if dup:
                 problems.append(("the returned path %s visits node %s more than once" % (ids, dup[0]), row, False))
                 continue
-            # orientation of every pushed element and continuation of the walk
-            for (ident, d, how, w) in h.pushed[1:]:
-                if w == 0 and how != "push_back":
-                    problems.append(("an element found on the forward walk is prepended", row, False))
-                if w == 1 and how != "push_front":
-                    problems.append(("an element found on the backward walk is appended", row, False))
+            # everything below is read off the RETURNED path (however it was assembled): [backward finds, last first] + [best] + [forward finds]
+            dirs_ = [dir_of(e.fields[1]) for e in out.elems]
+            if h.best is None:
+                if ids:
+                    problems.append(("a path %s is returned although the edges of no node were ever requested" % ids, row, True))
+                continue
+            if ids.count(h.best) != 1:
+                problems.append(("the returned path %s does not contain the best-scoring start node %s exactly once" % (ids, h.best), row, False))
+                continue
+            bi = ids.index(h.best)
+            fwd = list(zip(ids[bi + 1:], dirs_[bi + 1:]))
+            bwd = list(reversed(list(zip(ids[:bi], dirs_[:bi]))))
+            fw_ = getattr(h, "fresh_walk", {})
+            for ident, _d in fwd:
+                if fw_.get(ident, 0) != 0:
+                    problems.append(("node %s, found on the backward walk, is placed after the start node in the returned path %s" % (ident, ids), row, False))
+            for ident, _d in bwd:
+                if fw_.get(ident, 1) != 1:
+                    problems.append(("node %s, found on the forward walk, is placed before the start node in the returned path %s" % (ident, ids), row, False))
             # continuation of the walk: after stepping through an edge that arrives on side `ed` of node X, the next edges are those of X on
             # the opposite side (otherwise the path leaves a node through the side it entered: consecutive path nodes are not joined by facing edges)
-            per_walk = {}
-            for (ident, d, how, w) in h.pushed[1:]:
-                per_walk.setdefault(w, []).append((ident, d))
+            per_walk = {0: fwd, 1: bwd}
             for (w, st, nid, d) in h.edge_calls:
                 if st >= 1 and w in per_walk and st - 1 < len(per_walk[w]):
                     ident, pd = per_walk[w][st - 1]
-                    # the pushed orientation is the arrival side on the forward walk and its flip on the backward walk
-                    ed = pd if how_of_walk(h, w) == "push_back" else 1 - pd
+                    # the orientation stored in the path is the arrival side on the forward walk and its flip on the backward walk
+                    ed = pd if w == 0 else 1 - pd
+                    # (the arrival side itself is what the harness offered for that edge)
+                    offered = [x for (w2, st2, lst) in getattr(h, "offered", []) if w2 == w and st2 == st - 1 for x in lst if x[0] == ident]
+                    if offered and offered[0][1] != ed:
+                        problems.append(("node %s was reached through an edge arriving on its %s side but is stored in the path with orientation %s (%s walk)" % (
+                            ident, dir_name(offered[0][1]), dir_name(pd), "forward" if w == 0 else "backward"), row, False))
+                        ed = offered[0][1]
                     if nid != ident:
                         problems.append(("after stepping to node %s the walk continues from node %s" % (ident, nid), row, False))
                     elif d != 1 - ed:
                         problems.append(("the %s walk entered node %s on its %s side and continues through the same side (it must leave through the %s side): "
                                          "consecutive nodes of the returned path are then not joined by facing edges" % (
-                                             "forward" if how_of_walk(h, w) == "push_back" else "backward", ident, dir_name(ed), dir_name(1 - ed)), row, False))
-            # every pushed id was inserted into the used set
-            ins = h.obs.get("insert", [])
-            for (ident, d, how, w) in h.pushed:
-                if ident not in ins:
-                    problems.append(("node %s is put on the path but never recorded as used" % ident, row, False))
-                    break
+                                             "forward" if w == 0 else "backward", ident, dir_name(ed), dir_name(1 - ed)), row, False))
     key = "max_path"
     hard = [p for p in problems if not p[2]]
     if hard:
@@ -1048,8 +1068,8 @@ def max_path_table(F, rep, rule="C03.7"):
         rep.inconclusive(rule, key, "max_path: %s" % problems[0][0])
     else:
         rep.holds(rule, key, "max_path: on all %d scripted neighbourhoods (edges leading to fresh nodes, back to the start node, or to the node just "
-                  "visited; either walk) the returned path never repeats a node, forward finds are appended and backward finds prepended, and every "
-                  "placed node is recorded as used" % rows, sample={"scenarios": rows})
+                  "visited; either walk) the returned path never repeats a node, holds the start node once with forward finds after it and backward finds "
+                  "before it, stores each node with its arrival orientation and continues every walk through the facing side" % rows, sample={"scenarios": rows})
 
 
 def sequence_of_path_table(F, rep, rule="C03.8"):
@@ -1061,6 +1081,11 @@ def sequence_of_path_table(F, rep, rule="C03.8"):
     K, L = 3, 5
     problems = []
     rows = 0
+
+    def norm(node, rc, p):
+        """a base of a node in normal form: (node, position on the stored strand, complemented?) — position p of the reverse complement is
+        the complement of stored position L-1-p, however the code gets at it (a reverse-complemented view, or by hand)"""
+        return "B:%s:%d:%d" % (node, (L - 1 - p) if rc else p, 1 if rc else 0)
 
     class H(Oracles):
         def __init__(self, script):
@@ -1082,8 +1107,15 @@ def sequence_of_path_table(F, rep, rule="C03.8"):
                 return Int(64, False, val=L)
             if fn.get("trait") == "Mer" and name == "get":
                 s_ = recv(it, args[0])
-                p = args[1].val if isinstance(args[1], Int) and args[1].is_conc() else "?"
-                return Int(8, False, bits=[TOP] * 8, tags=frozenset({"B:%s:%s:%s" % (s_.info.get("node"), "rc" if s_.info.get("rc") else "fw", p)}))
+                p = args[1].val if isinstance(args[1], Int) and args[1].is_conc() else None
+                if p is None or not (0 <= p < L):
+                    raise Diverge("base %r of a node of %d bases" % (args[1], L))
+                return Int(8, False, bits=[TOP] * 8, tags=frozenset({norm(s_.info.get("node"), bool(s_.info.get("rc")), p)}))
+            if path == "complement" and len(args) == 1 and isinstance(args[0], Int):
+                t = [x for x in tags_of(args[0]) if x.startswith("B:")]
+                if t:
+                    nd, fp, c = t[0][2:].rsplit(":", 2)
+                    return Int(8, False, bits=[TOP] * 8, tags=frozenset({"B:%s:%s:%d" % (nd, fp, 1 - int(c))}))
             if path.startswith("dna_string::DnaString") and name == "new":
                 return Opaque("DnaString", {"out"})
             if path.startswith("dna_string::DnaString") and name == "push":
@@ -1110,10 +1142,12 @@ def sequence_of_path_table(F, rep, rule="C03.8"):
         want = []
         for i, d in enumerate(dirs):
             for p in range(0 if i == 0 else K - 1, L):
-                want.append("B:p%d:%s:%d" % (i, "fw" if d == LEFT else "rc", p))
-        if h.out != want:
-            problems.append(("bases spelled %s; required %s (B:<node>:<orientation>:<position>; K=%d, node length %d: every node after the first "
-                             "contributes its bases from position K-1)" % (h.out, want, K, L), dirs, False))
+                want.append(norm("p%d" % i, d != LEFT, p))
+        if any(x is None for x in h.out):
+            problems.append(("a pushed base could not be traced to a node position (%s)" % h.out, dirs, True))
+        elif h.out != want:
+            problems.append(("bases spelled %s; required %s (B:<node>:<stored position>:<complemented>; K=%d, node length %d: every node after the "
+                             "first contributes its bases from position K-1 of its oriented sequence)" % (h.out, want, K, L), dirs, False))
     hard = [p for p in problems if not p[2]]
     if hard:
         rep.violated(rule, "sequence_of_path", "sequence_of_path: %s  [path orientations %s]" % (hard[0][0], [dir_name(d) for d in hard[0][1]]),
@@ -1513,6 +1547,10 @@ def combine_table(F, rep, rule="C04.1"):
                 if name == "add":
                     self.adds.append(("combined-seqs" in tags_of(s_), info_of_(recv(it, args[1])).get("of")))
                     return Tup([])
+            # a whole-sequence iterator / copy of a node's view handed on instead of the view itself: still that node's sequence
+            if args and name in ("iter", "into_iter", "to_owned", "clone", "to_dna_string", "by_ref") and isinstance(recv(it, args[0]), Opaque) \
+                    and "of" in recv(it, args[0]).info:
+                return Opaque(dest_ty or "seq-of-node", {"slice"}, {"of": recv(it, args[0]).info["of"]})
             if is_print_call(fn):
                 return Opaque(dest_ty, {"fmt"})
             return NotImplemented
@@ -1557,7 +1595,9 @@ def combine_table(F, rep, rule="C04.1"):
         st = out.fields[names.index("stranded")]
         sq = out.fields[names.index("sequences")]
         want_adds = [(True, (gi, j)) for gi in range(len(flags)) for j in range(sizes[gi])]
-        if h.adds != want_adds or "combined-seqs" not in tags_of(sq):
+        if any(a_[1] is None for a_ in h.adds):
+            inc.append("a sequence added to the combined store could not be traced to a node of an input graph (%s)" % h.adds)
+        elif h.adds != want_adds or "combined-seqs" not in tags_of(sq):
             problems.append("sequences copied: %s; required every sequence of every graph, in order: %s" % (h.adds, want_adds))
         got_e = [e.fields[0].val for e in ex.elems] if isinstance(ex, VecV) else None
         if got_e != [10 * gi + j for gi in range(len(flags)) for j in range(sizes[gi])]:
